@@ -163,14 +163,24 @@ class _Suspension:
         # Called when an exception is thrown into the generator: resume
         # the handlers and raise the exception at the yield.
         self._switch("resume")
-        if val is None:
-            val = typ() if isinstance(typ, type) else typ
-        raise val.with_traceback(tb) if tb is not None else val
+        raise _thrown_exception(typ, val, tb)
 
     def close(self):
         # Called when the generator is closed or garbage collected, before
         # GeneratorExit is raised at the yield.
         self._switch("resume")
+
+
+def _thrown_exception(typ, val=None, tb=None):
+    """The exception that generator.throw(typ[, val[, tb]]) raises."""
+    if isinstance(typ, type):
+        if val is None:
+            val = typ()
+        elif not isinstance(val, typ):
+            val = typ(*val) if isinstance(val, tuple) else typ(val)
+    else:
+        val = typ
+    return val.with_traceback(tb) if tb is not None else val
 
 
 class _NestedScopeReads(NodeVisitor):
